@@ -224,10 +224,11 @@ theorem run2_refines (I : Inst) (hv : I.Valid) (rest : List Int) (xs : List Int)
     (hrest : ∀ v ∈ rest, v ≠ 0 ∧ v.natAbs ≤ I.nTypes) (hroom : st.done.length + rest.length ≤ st.starts.length)
     (bins : Bins) (hR : R2 st bins) :
     ∃ st' rows, run2 I rest st = some st' ∧ Inv2 I (xs ++ rest) st' ∧
-      pack I (firstFitPlace I) bins rest = some (rows, st'.binId) ∧ st'.done = st.done ++ rows := by
+      pack I (firstFitPlace I) bins rest = some (rows, st'.binId) ∧ st'.done = st.done ++ rows ∧
+      st'.starts.length = st.starts.length := by
   induction rest generalizing xs st bins with
   | nil =>
-    refine ⟨st, [], rfl, by simpa using h, ?_, by simp⟩
+    refine ⟨st, [], rfl, by simpa using h, ?_, by simp, rfl⟩
     unfold R2 at hR
     have := h.bpos
     simp only [pack, Option.some.injEq, Prod.mk.injEq, true_and]
@@ -237,8 +238,8 @@ theorem run2_refines (I : Inst) (hv : I.Valid) (rest : List Int) (xs : List Int)
     obtain ⟨st1, id, w, hh, h1, h2, h2l, ho, hdone, hR1⟩ := step2_refines I hv xs st v h (hrest v (by simp)).1
       (hrest v (by simp)).2 (by omega) bins hR
     have hlen1 : st1.done.length = st.done.length + 1 := by rw [hdone]; simp
-    obtain ⟨st2, rows, h3, h4, h5, h6⟩ := ih (xs ++ [v]) st1 h2 (fun u hu => hrest u (by simp [hu])) (by omega) _ hR1
-    refine ⟨st2, (firstFitPlace I bins id w hh).1 :: rows, ?_, by simpa using h4, ?_, ?_⟩
+    obtain ⟨st2, rows, h3, h4, h5, h6, h7⟩ := ih (xs ++ [v]) st1 h2 (fun u hu => hrest u (by simp [hu])) (by omega) _ hR1
+    refine ⟨st2, (firstFitPlace I bins id w hh).1 :: rows, ?_, by simpa using h4, ?_, ?_, by omega⟩
     · simp [run2, h1, h3]
     · simp only [pack, ho, h5]
     · rw [h6, hdone]; simp
